@@ -19,6 +19,7 @@ var (
 	activity atomic.Uint64
 	inflight atomic.Int64
 	busy     atomic.Int64
+	connPend atomic.Int64
 	calls    atomic.Uint64
 
 	mu       sync.Mutex
@@ -130,6 +131,14 @@ func Busy(d int64) { busy.Add(d) }
 
 // BusyCount returns the number of workers currently executing closures.
 func BusyCount() int64 { return busy.Load() }
+
+// ConnPending tracks closures queued on connection workers and not yet
+// executed (every queued closure is executed, also after dispose).
+func ConnPending(d int64) { connPend.Add(d) }
+
+// ConnPendingCount returns the number of closures queued on connection
+// workers that have not finished yet.
+func ConnPendingCount() int64 { return connPend.Load() }
 
 // Inflight returns the number of wrapped goroutines not yet finished.
 func Inflight() int64 { return inflight.Load() }
